@@ -39,6 +39,12 @@ pub struct FaultState {
     /// Kind of every device call seen, in order.
     pub calls: Vec<CallKind>,
     pub enabled: bool,
+    /// Fail (before touching the device) this many writes into the data area (block >= 16).
+    pub fail_data_writes: u32,
+    /// Fail every fsync from now on.
+    pub fail_fsyncs: bool,
+    /// Fail every write from now on.
+    pub fail_writes: bool,
 }
 
 /// Scheduling hooks are delegated to this trait object when present.
@@ -165,7 +171,17 @@ impl Session {
 }
 
 impl Handler for Session {
-    fn write_begin(&self, _site: &'static str, _offset: u64, _data: &[u8]) -> IoAnswer {
+    fn write_begin(&self, _site: &'static str, offset: u64, _data: &[u8]) -> IoAnswer {
+        {
+            let mut f = self.fault.lock();
+            if f.fail_writes {
+                return IoAnswer::FailBefore;
+            }
+            if f.fail_data_writes > 0 && offset >= 16 * 4096 {
+                f.fail_data_writes -= 1;
+                return IoAnswer::FailBefore;
+            }
+        }
         self.fault_answer(CallKind::Write)
     }
 
@@ -180,6 +196,9 @@ impl Handler for Session {
     }
 
     fn fsync_begin(&self) -> IoAnswer {
+        if self.fault.lock().fail_fsyncs {
+            return IoAnswer::FailBefore;
+        }
         let a = self.fault_answer(CallKind::Fsync);
         if a != IoAnswer::FailBefore {
             self.fsync_open.store(true, Ordering::SeqCst);
